@@ -19,7 +19,7 @@ CHECKS = {
                 note="Sampling. Empty dictionary: no context for identity, 'attached' for inheritance. Prevention is exercised with arguments no other run uses."),
     "C02": dict(engine="calltree", level="exploration", design="4/C02, 3.5",
                 technique="deterministic simulation: seeded call/forget/restart/evict/clock-jump histories over scripted functions vs. a call-ledger reference model, on three backends",
-                text="Scripted functions return values from the documented result-type domain (54 catalogue kinds and nestings, incl. partitions) or raise (built-in, custom, two-argument constructor, function-local class, not-to-be-memoized). Histories of calls (normal, ignore_result, force_local), repeats, forget, forget_all, memento queries, restarts (fresh process over the same store), cache evictions and clock jumps run on filesystem, filesystem+cache (4 KiB - 4 MiB) and memory backends. The ledger demands: the body runs exactly once per distinct call and never again until forgotten; every later call returns an equal value of the same type (also after restart / eviction); the first call's value is usable; exceptions are replayed as the same class when rebuildable from a message, else as the memoized-exception type, with the original message; not-to-be-memoized exceptions are raised and executed every time and never recorded; the recorded result type matches. Histories include a batch naming one call twice and an exception class living in a module that only a running body imports.",
+                text="Scripted functions return values from the documented result-type domain (54 catalogue kinds and nestings, incl. partitions) or raise (built-in, custom, two-argument constructor, function-local class, not-to-be-memoized). Histories of calls (normal, ignore_result, force_local), repeats, forget, forget_all, memento queries, restarts (fresh process over the same store), cache evictions and clock jumps run on filesystem, filesystem+cache (4 KiB - 4 MiB) and memory backends. The ledger demands: the body runs exactly once per distinct call and never again until forgotten; every later call returns an equal value of the same type (also after restart / eviction); the first call's value is usable; exceptions are replayed as the same class when rebuildable from a message, else as the memoized-exception type, with the original message; not-to-be-memoized exceptions are raised and executed every time and never recorded; the recorded result type matches. Histories include a batch naming one call twice and an exception class living in a module that only a running body imports. A second workload (600 histories in the quick tier) runs a three-level call tree whose leaf failures are a switch the history flips between calls (transient failures), forgets through Memento.forget_exceptions_recursively (also as dry run) and plain forget, walks the records with Memento.trace / graph, and compares every call's outcome and executed set with a dictionary model.",
                 note="Sampling. Function bodies are scripted through the builtins side channel. Memoized exception under ignore_result is not asserted (docstring and code disagree)."),
     "C17": dict(engine="calltree", level="exploration", design="4/C17, 3.5",
                 technique="deterministic simulation: seeded call/restart/cache-flush histories over partition merge chains vs. an overlay reference model",
